@@ -18,8 +18,22 @@ def run(tier, seed, replay=None):
     if not chk.builds(model=True, harness=True):
         return chk.finish()
     chk.proofs()
-    n = 200 if tier == "quick" else 5000
-    cases = E.make_cases(seed * 1009 + 9, n, size="small" if tier == "quick" else "medium", nops=35, mode="checked_only")
+    n = 4400 if tier == "quick" else 40000
+    size = "small" if tier == "quick" else "medium"
+    cases = E.make_cases(seed * 1009 + 9, n // 11, size=size, nops=35, mode="checked_only")
+    # focused streams: one estimate at a time on multi-stop units, everything that could reject the move earlier switched off
+    off = {"capacity": False, "maxwait_stop": False, "maxwait_veh": False, "endtime": False, "maxdur": False, "maxstops": False,
+           "maxdist": False, "attrs": False, "windows": False}
+    focus = [{"windows": True, "maxwait_stop": True}, {"windows": True, "maxwait_veh": True}, {"capacity": True},
+             {"windows": True, "endtime": True, "maxdur": True}, {"maxdist": True, "maxstops": True}]
+    per = max(1, (n - n // 11) // len(focus))
+    for k, fz in enumerate(focus):
+        feats = dict(off, precedence=True, colocated=(k < 2), **fz)
+        extra = E.make_cases(seed * 1009 + 90 + k, per, size=size, nops=35, mode="checked_only", feats=feats)
+        for c in extra:
+            c["id"] = "f%d_%s" % (k, c["id"])
+        cases += extra
+    n = len(cases)
     res, st = E.run_cases(cases, "c09_" + tier, timeout=3000)
     chk.ob("harness and model runner exit normally", st[0] == 0 and st[2] == 0, (st[1] + st[3])[-300:])
     bad = [r for r in res if r["diff"]]
